@@ -19,11 +19,14 @@ refill returned an empty buffer with nothing carried; (R8.4) split_pos is the fi
 Some, len-1 exactly on the edge last == STUFF_SEQUENCE[0], otherwise len, the Sentinel test compares the first
 two bytes with STUFF_SEQUENCE, and what is kept for the next call is the tail of that split.
 NOT decided: tiling as an equality of concatenations over all streams and read schedules (value-level).
+(R8.5 = R17.1-R17.3, R5.4) read_n fills a block through short reads / EINTR and clears a stale error at end
+of stream; both halves of AnchoredSlice::split_at carry a clone of the anchor, so emitted Data slices keep
+their bytes alive whatever the arena does next.
 """
 
 ASSUMPTIONS = ['ByteArena::read_n semantics (C17)']
 
-FLOORS = {'R8.1': 7, 'R8.2': 4, 'R8.3': 3, 'R8.4': 5}
+FLOORS = {'R8.1': 7, 'R8.2': 4, 'R8.3': 3, 'R8.4': 5, 'R8.5': 20}
 
 PUMP = 'hcobs::stream_reader::StreamChunker::pump'
 ASLICE = 'byte_arena::AnchoredSlice'
@@ -261,6 +264,14 @@ def r8_4(cx):
         p1, p2 = kinds['len-1'].pos, kinds['len'].pos
         ok = p1 is not None and p2 is not None and p1.bb in fn.reachable(t, cut_blocks=[b]) and p1.bb not in fn.reachable(f, cut_blocks=[b, s.bb]) \
             and p2.bb in fn.reachable(f, cut_blocks=[b]) and p2.bb not in fn.reachable(t, cut_blocks=[b, s.bb])
+    if ok:
+        # ... and on no other: whole-buffer emission requires the last byte to have been tested and found different
+        def tested(bb, want):
+            for e, v, ed in fn.facts_at(bb):
+                if ed[0] == g['edge'][0] and v is want:
+                    return True
+            return False
+        ok = tested(kinds['len'].pos.bb, False) and tested(kinds['len-1'].pos.bb, True)
     cx.check(ok, 'trailing-FE', fn, None, 'len-1 exactly on the edge last == STUFF_SEQUENCE[0], len on the other edge',
              fail_detail='the hold-back of a trailing 0xFE is not wired to last == STUFF_SEQUENCE[0]')
     # only when find returned None
@@ -302,4 +313,10 @@ def is_buf_len_arg(a):
     return False
 
 
-RULES = [('R8.1', r8_1), ('R8.2', r8_2), ('R8.3', r8_3), ('R8.4', r8_4)]
+def r8_5(cx):
+    """what pump stands on: read_n fills a block through short reads / EINTR (R17.1-R17.3); the Data slices it cuts keep their bytes alive (R5.4)"""
+    from . import c17, c05
+    compose(cx, [('R17.1', c17.r17_1), ('R17.2', c17.r17_2), ('R17.3', c17.r17_3), ('R5.4', c05.r5_4)])
+
+
+RULES = [('R8.1', r8_1), ('R8.2', r8_2), ('R8.3', r8_3), ('R8.4', r8_4), ('R8.5', r8_5)]
